@@ -78,6 +78,30 @@ func excludedTEPoint(curve, op string, p Pt, scalars []string) string {
 	return ""
 }
 
+// excludedTECase / excludedTEAdvCase: the exact shapes of the open twisted-Edwards findings.
+func excludedTECase(c *TECase) string {
+	if sig := excludedTE(c.Curve, c.Op, c.Scalars); sig != "" {
+		return sig
+	}
+	if c.Op == "ScalarMul" && len(c.Points) == 1 {
+		return excludedTEPoint(c.Curve, c.Op, c.Points[0], c.Scalars)
+	}
+	return ""
+}
+
+func excludedTEAdvCase(c *TEAdvCase) string {
+	if sig := excludedTE(c.Curve, "ScalarMul", []string{c.S}); sig != "" {
+		return sig
+	}
+	if sig := excludedTEPoint(c.Curve, "ScalarMul", c.P, []string{c.S}); sig != "" {
+		return sig
+	}
+	if _, ok := open(SigTEZeroSubscalars); ok && teAltersHalfGCD(c.Strategy) {
+		return SigTEZeroSubscalars
+	}
+	return ""
+}
+
 func excludedTE(curve, op string, scalars []string) string {
 	if _, ok := open(SigTEZeroScalar); ok && op == "ScalarMul" {
 		cv := teCurves[curve]
@@ -563,6 +587,9 @@ func registerMoreReplays(reg func(kind string, f func(raw json.RawMessage) strin
 		if json.Unmarshal(raw, &c) != nil {
 			return ""
 		}
+		if excludedAdv(&c) != "" {
+			return "" // exact shape of an open known finding: reported by its probe, never as a fresh violation
+		}
 		return runAdv(c).Violation
 	})
 	reg("ecdsa", func(raw json.RawMessage) string {
@@ -570,11 +597,17 @@ func registerMoreReplays(reg func(kind string, f func(raw json.RawMessage) strin
 		if json.Unmarshal(raw, &c) != nil {
 			return ""
 		}
+		if excludedECDSA(&c) != "" {
+			return ""
+		}
 		return runECDSA(c).Violation
 	})
 	reg("pairing", func(raw json.RawMessage) string {
 		var c PairCase
 		if json.Unmarshal(raw, &c) != nil {
+			return ""
+		}
+		if excludedPair(&c, pairOrder(c.Curve)) != "" {
 			return ""
 		}
 		return runPair(c).Violation
@@ -591,6 +624,9 @@ func registerMoreReplays(reg func(kind string, f func(raw json.RawMessage) strin
 		if json.Unmarshal(raw, &c) != nil {
 			return ""
 		}
+		if sw := c.asSW(); excludedSW(&sw) != "" {
+			return ""
+		}
 		return runBN(c).Violation
 	})
 	reg("expmod", func(raw json.RawMessage) string {
@@ -600,9 +636,19 @@ func registerMoreReplays(reg func(kind string, f func(raw json.RawMessage) strin
 		}
 		return runExpmod(c).Violation
 	})
+	reg("pairing-sweep", func(raw json.RawMessage) string {
+		var c PairSweepCase
+		if json.Unmarshal(raw, &c) != nil {
+			return ""
+		}
+		return runPairSweep(c).Violation
+	})
 	reg("te", func(raw json.RawMessage) string {
 		var c TECase
 		if json.Unmarshal(raw, &c) != nil {
+			return ""
+		}
+		if excludedTECase(&c) != "" {
 			return ""
 		}
 		return runTE(c).Violation
@@ -617,6 +663,9 @@ func registerMoreReplays(reg func(kind string, f func(raw json.RawMessage) strin
 	reg("te-adv", func(raw json.RawMessage) string {
 		var c TEAdvCase
 		if json.Unmarshal(raw, &c) != nil {
+			return ""
+		}
+		if excludedTEAdvCase(&c) != "" {
 			return ""
 		}
 		return runTEAdv(c).Violation
